@@ -18,12 +18,34 @@ ID = 'C12'
 MODULE = 'PyTough.Props.C12'
 TARGETS = ['PyTough.Props.C12', 'drv_c12']
 THEOREMS = ['Props.C12.' + t for t in [
-]]
-LEVEL_TEXT = ''
-LEVEL_NOTE = ''
+    'found_column_contains', 'outside_gives_none', 'in_polygon_in_bounding_rectangle', 'contains_point_implies_near_point',
+    'methods_agree', 'all_columns_hold_answer', 'plain_agrees_with_exhaustive', 'quadtree_agrees_or_none_partial',
+    'quadtree_partition', 'quadtree_root', 'sub_rectangles_cover', 'sub_rectangles_inside',
+    'quadtree_leaf_contains_point', 'quadtree_leaf_exists',
+    'block_at_point_spec', 'block_reported_is_in_found_column', 'block_at_point_in_layer', 'block_at_point_raised_surface',
+    'block_at_point_none_outside', 'block_at_point_none_above_or_below', 'reported_block_contains_point_partial',
+    'containing_block_is_the_reported_one']]
+LEVEL_TEXT = ('Proof (partial): 22 Lean theorems, no sorry, about an exact-rational executable model of in_polygon / rectangles / quadtree / '
+              'column_containing_point (all search aids) / layer and block location: every reported column contains the point for every aid '
+              'combination; a point outside every column gives None; in_polygon implies in-bounding-rectangle for every polygon (crossing parity, '
+              'unconditional after the repair of in_polygon); under UniqueAt plain search = exhaustive search = search with any guess / bounding '
+              'rectangle or polygon holding the point / column subset holding the answer; with a quadtree the result is the same column or None; '
+              'the quadtree constructor partitions elements among the four sub-rectangles at every node and leaf(pos) has bounds containing pos; '
+              'the reported block is characterised (layer logic, raised surface, None above/below/outside) and is the unique block containing the '
+              'point at or below ground level. PARTIAL: quadtree completeness (search finds the column) is not proved (false for domains with '
+              'holes); block_contains_point for the reported block needs z <= ground level (the real function disagrees under a raised surface); '
+              'all column_track clauses are correspondence + exact-oracle only (executable Lean model compared with the code, no theorems).')
+LEVEL_NOTE = ('Trusted: Lean kernel (+propext, Classical.choice, Quot.sound); hand-written models Model/Locate.lean, Model/Track.lean tied to /repo by '
+              'five correspondence facets on every run (exact rationals of the doubles; cases decided by less than 1e-9 relative are discarded as '
+              'unstable); IEEE rounding is not modelled; Python set iteration order and numpy argsort order are modelled as list order / stable '
+              'sort (no theorem depends on them); the Fraction oracle in harness/props/c12.py.')
 TECHNIQUE = 'Lean 4 proof over an executable exact-rational model of the search code + differential correspondence with the real code + exact-arithmetic oracle'
-ASSUMPTIONS = []
-TRUSTED_EXTRA = []
+ASSUMPTIONS = [
+    'arithmetic is exact in the model; the code computes in IEEE doubles: inputs are generated on dyadic lattices (or passed as the exact rationals of the doubles) and points within 1e-6 x longest side of a column edge, elevations within 1e-9 of a layer boundary/surface and lines along a column edge are excluded, as in the property text',
+    'columns have at least one node and numeric surfaces; geometries have at least two layers (index 0 = atmosphere layer)',
+    'UniqueAt (at most one column contains the point) for the agreement theorems; evaluated on every explored point',
+]
+TRUSTED_EXTRA = ['numpy.linalg.solve modelled as Cramer rule, norm/round/unique of line_polygon_intersections decided on squared rationals (Model/Track.lean)']
 
 EDGE_TOL = Fr(1, 10 ** 6)      # points closer than this x (longest side of the column) to an edge are excluded (property text)
 Z_TOL = Fr(1, 10 ** 9)         # elevations closer than this to a layer boundary / surface are excluded
